@@ -950,10 +950,20 @@ class Interp:
             raise PyRaise("IndexError")
         raise Unsupported(f"index {idx!r}")
 
+    def dict_key(self, key):
+        """Key object stored in a concrete-structure dict: symbolic scalars / times are kept as they are and
+        compared by (symbolic) equality at every lookup."""
+        try:
+            return self.hashable(key)
+        except Unsupported:
+            if isinstance(key, (S, VTime, VDelta, VQty, SEnum, VRec)):
+                return SymKey(key)
+            raise
+
     def dict_get(self, h, key, raise_missing=False, default=None):
         try:
             k = self.hashable(key)
-            if not any(isinstance(x, VRec) for x in h.items):
+            if not any(isinstance(x, (VRec, SymKey)) for x in h.items):
                 if k in h.items:
                     return h.items[k]
                 if raise_missing:
@@ -962,7 +972,7 @@ class Interp:
         except Unsupported:
             pass
         for k2, v2 in h.items.items():
-            if self.decide(self.equal(key, k2), "dict key match"):
+            if self.decide(self.equal(key, k2.value if isinstance(k2, SymKey) else k2), "dict key match"):
                 return v2
         if raise_missing:
             raise PyRaise("KeyError")
@@ -1331,7 +1341,7 @@ class Interp:
             if isinstance(h, HList):
                 return list(h.items)
             if isinstance(h, (HSet, HDict)):
-                return list(h.items)
+                return [k.value if isinstance(k, SymKey) else k for k in h.items]
             if isinstance(h, HOptDict):
                 return optdict.present_keys(self, h)
         r = models.iterate_model(self, v)
@@ -1596,10 +1606,11 @@ class Interp:
                         raise PyRaise("IndexError") from None
                     return
             if isinstance(h, HDict):
-                k = self.hashable(idx)
-                if any(isinstance(x, VRec) for x in list(h.items) + [k]):
+                k = self.dict_key(idx)
+                if any(isinstance(x, (VRec, SymKey)) for x in list(h.items) + [k]):
+                    kv = k.value if isinstance(k, SymKey) else k
                     for k2 in list(h.items):
-                        if self.decide(self.equal(k, k2), "dict key match"):
+                        if self.decide(self.equal(kv, k2.value if isinstance(k2, SymKey) else k2), "dict key match"):
                             h.items[k2] = v
                             return
                 h.items[k] = v
@@ -1855,6 +1866,16 @@ class Interp:
                     return False
             return True
         raise Unsupported(f"pattern {type(pat).__name__}")
+
+
+class SymKey:
+    """A symbolic value used as a key of a concrete-structure dict (compared by equality at lookups)."""
+
+    def __init__(self, value):
+        self.value = value
+
+    def __repr__(self):
+        return f"SymKey<{self.value!r}>"
 
 
 class GenExp:
